@@ -25,6 +25,10 @@ Proof.
   exists (y :: l'). constructor; assumption.
 Qed.
 
+Lemma Forall2_cons_inv {X Y} (R : X -> Y -> Prop) x l l' : Forall2 R (x :: l) l' ->
+  exists y l'', l' = y :: l'' /\ R x y /\ Forall2 R l l''.
+Proof. intros H. inversion H; subst. eexists _, _. repeat split; eassumption. Qed.
+
 Lemma res_all_Forall2 {X Y} (f : X -> res Y) l l' : Forall2 (fun x y => f x = Ok y) l l' -> res_all f l = Ok l'.
 Proof. induction 1 as [|x y l l' H _ IH]; cbn [res_all]; [reflexivity|]. rewrite H, IH. reflexivity. Qed.
 
@@ -121,7 +125,7 @@ Section Sim.
   Proof.
     induction f as [|f IH]; intros q records read P qsP s s' raws itf HP Hle H; [discriminate|].
     destruct (records <=? read) eqn:E.
-    - cbn [raw_collect_st] in H. rewrite grun_bind, raw_next_done in H by lia. cbn [grun] in H.
+    - apply N.leb_le in E. cbn [raw_collect_st] in H. rewrite grun_bind, (raw_next_done _ _ _ _ E) in H. cbn [grun] in H.
       injection H as _ <- <-. cbn [app]. eapply pending_leftover; eassumption.
     - destruct P as [|v P'].
       + exists (raws ++ leftover itf). reflexivity.
@@ -129,14 +133,17 @@ Section Sim.
         destruct (pop_fronts (q_queues q)) as [[vs qs1]| |] eqn:Epop; try discriminate.
         destruct (pop_raws (length P') qs1) as [[P1 q1]| |] eqn:E1; try discriminate.
         injection HP as -> -> ->. cbn [length] in Hle.
-        pose proof (avail_pop_fronts _ _ _ ltac:(rewrite <- qr_available_avail; lia) Epop) as Hav.
-        rewrite <- qr_available_avail in Hav.
-        rewrite (raw_collect_item f _ s s _ v (raw_next_pending q records read v qs1 s ltac:(lia) ltac:(lia) Epop)) in H.
+        assert (Hav1 : 1 <= avail (q_queues q)) by (rewrite <- qr_available_avail; lia).
+        pose proof (avail_pop_fronts _ _ _ Hav1 Epop) as Hav.
+        rewrite <- qr_available_avail in Hav, Hav1.
+        assert (Hlt : read < records) by lia.
+        rewrite (raw_collect_item f _ s s _ v (raw_next_pending q records read v qs1 s Hlt Hav1 Epop)) in H.
         destruct (grun step (raw_collect_st f log_size _ []) s) as [s2 [[l it2]| |]] eqn:E2; cbn [res_map fst snd] in H;
           try discriminate.
         injection H as _ <- <-.
-        destruct (IH _ _ _ P' qsP _ _ _ _ E1 ltac:(cbn [q_queues qr_available]; change (avail qs1) with (avail qs1);
-                    rewrite qr_available_avail; cbn [q_queues]; lia) E2) as [tail Ht].
+        assert (Hk : N.of_nat (length P') <= qr_available (mkQr (q_proto q) (q_streams q) qs1)).
+        { rewrite qr_available_avail. cbn [q_queues]. lia. }
+        destruct (IH (mkQr (q_proto q) (q_streams q) qs1) records (read + 1) P' qsP s s2 l it2 E1 Hk E2) as [tail Ht].
         exists tail. cbn [app]. f_equal. exact Ht.
   Qed.
 
@@ -157,9 +164,48 @@ Section Sim.
       fold (mk qa ra pa) in Hpv. rewrite Hv in Hpv.
       destruct (pop_point_model (mk qa ra pa) vs) as [p0| |]; cbn [res_map] in Hpv; try discriminate.
       injection Hpv as Hp0.
-      destruct (IH (mkQr (q_proto q) (q_streams q) qs1) qa ra pa P1 qs' ptsn' E1 HL' HV') as (pts0 & Hpp & Hm).
+      destruct (IH (mkQr (q_proto q) (q_streams q) qs1) qa ra pa P1 q1 ptsn' E1 HL' HV') as (pts0 & Hpp & Hm).
       rewrite Hpp. cbn [q_proto q_streams]. exists (p0 :: pts0). split; [reflexivity|].
       cbn [map]. rewrite Hp0, Hm. reflexivity.
+  Qed.
+
+  (** ** Steps of the simple iterator *)
+  Lemma simple_next_done q read pts s : pc_records pc <= read ->
+    grun step (simple_next fcos fsin fasin fatan2 log_size (mk q read pts)) s = (s, Ok (mk q read pts, Done)).
+  Proof.
+    intros H. unfold simple_next. cbn [mk si_pc si_read].
+    destruct (pc_records pc <=? read) eqn:E; [reflexivity|lia].
+  Qed.
+
+  Lemma simple_next_waiting q read p pts s : read < pc_records pc ->
+    grun step (simple_next fcos fsin fasin fatan2 log_size (mk q read (p :: pts))) s =
+    (s, Ok (mk q (read + 1) pts, Item p)).
+  Proof.
+    intros H. unfold simple_next. cbn [mk si_pc si_read si_points].
+    destruct (pc_records pc <=? read) eqn:E; [lia|]. reflexivity.
+  Qed.
+
+  Lemma simple_next_refill q read s s1 q1 pts0 q' p rest : read < pc_records pc ->
+    grun step (refill (refill_fuel log_size) q) s = (s1, Ok q1) ->
+    pop_points (N.to_nat (qr_available q1)) (mk q read []) q1 = Ok (pts0, q') ->
+    map post pts0 = p :: rest ->
+    grun step (simple_next fcos fsin fasin fatan2 log_size (mk q read [])) s =
+    (s1, Ok (mk q' (read + 1) rest, Item p)).
+  Proof.
+    intros H Hrefill Hpp Hm. unfold simple_next. cbn [mk si_pc si_read si_points si_q].
+    destruct (pc_records pc <=? read) eqn:E; [lia|].
+    rewrite (grun_bind_step step _ _ _ _ _ Hrefill).
+    rewrite grun_bind, grun_rlift. change (mkSimple pc q o rot tr (prepare_indices (pc_prototype pc)) read [] rgs) with (mk q read []).
+    rewrite Hpp. cbn [si_opts si_rotation si_translation mk]. rewrite post_buffer_map, Hm. reflexivity.
+  Qed.
+
+  Lemma simple_collect_item f it s s1 it' p :
+    grun step (simple_next fcos fsin fasin fatan2 log_size it) s = (s1, Ok (it', Item p)) ->
+    grun step (simple_collect fcos fsin fasin fatan2 (Datatypes.S f) log_size it []) s =
+    let '(s', r) := grun step (simple_collect fcos fsin fasin fatan2 f log_size it' []) s1 in
+    (s', res_map (cons p) r).
+  Proof.
+    intros H. cbn [simple_collect]. rewrite grun_bind, H. rewrite simple_collect_acc. reflexivity.
   Qed.
 
   (** ** The simulation *)
@@ -192,9 +238,10 @@ Section Sim.
     destruct HR as (Hproto & Hstreams & HP & Hle & HV & Hwf & Hpc).
     destruct (pc_records pc <=? read) eqn:E.
     - (* both are done *)
-      cbn [raw_collect_st] in H. rewrite grun_bind, raw_next_done in H by lia. cbn [grun] in H.
+      pose proof E as E'. apply N.leb_le in E'.
+      cbn [raw_collect_st] in H. rewrite grun_bind, (raw_next_done _ _ _ _ E') in H. cbn [grun] in H.
       injection H as <- <- _. exists []. split; [|constructor].
-      cbn [simple_collect]. rewrite grun_bind. unfold simple_next. cbn [mk si_pc si_read]. rewrite E. reflexivity.
+      cbn [simple_collect]. rewrite grun_bind, (simple_next_done _ _ _ _ E'). reflexivity.
     - destruct P as [|v P'].
       + (* output queue empty: both refill from the same state *)
         inversion HV; subst. cbn [length pop_raws] in HP. injection HP as HQ.
@@ -210,47 +257,49 @@ Section Sim.
         injection H as <- <- <-. cbn [app] in HI.
         destruct (refill_wf step _ _ _ _ _ Hrefill Hwf) as (Hwf1 & Hp1 & Hav1).
         set (a := qr_available q1) in *.
-        destruct (pop_raws_avail (N.to_nat a) (q_queues q1) ltac:(unfold a; rewrite qr_available_avail; lia))
-          as (Pn & qsn & HPn & HLn & Havn).
+        assert (Ha0 : N.of_nat (N.to_nat a) <= avail (q_queues q1)) by (unfold a; rewrite qr_available_avail; lia).
+        destruct (pop_raws_avail (N.to_nat a) (q_queues q1) Ha0) as (Pn & qsn & HPn & HLn & Havn).
         destruct (N.to_nat a) as [|k] eqn:Ek; [lia|].
         pose proof HPn as HPn0. cbn [pop_raws] in HPn. rewrite Epop in HPn.
         destruct (pop_raws k qs1) as [[Pn' qn']| |] eqn:En'; try discriminate. injection HPn as <- <-.
         cbn [length] in HLn. injection HLn as HLn.
-        pose proof (avail_pop_fronts _ _ _ ltac:(rewrite <- qr_available_avail; fold a; lia) Epop) as Hav2.
+        assert (Ha1 : 1 <= avail (q_queues q1)) by (rewrite <- qr_available_avail; fold a; lia).
+        pose proof (avail_pop_fronts _ _ _ Ha1 Epop) as Hav2.
         rewrite <- qr_available_avail in Hav2. fold a in Hav2.
         assert (Hk : N.of_nat (length Pn') <= qr_available (mkQr (q_proto q1) (q_streams q1) qs1)).
         { rewrite qr_available_avail. cbn [q_queues]. lia. }
         rewrite <- HLn in En'.
-        destruct (pending_prefix f _ _ _ Pn' qsn _ _ _ _ En' Hk E2) as [tail Ht].
+        destruct (pending_prefix f (mkQr (q_proto q1) (q_streams q1) qs1) (pc_records pc) (read + 1) Pn' qn' s1' s2 l it2 En' Hk E2) as [tail Ht].
         assert (HIn : Forall inset (v :: Pn')).
         { inversion HI as [|? ? Hv HI']; subst. constructor; [exact Hv|].
           rewrite Ht in HI'. apply Forall_app in HI'. apply HI'. }
         destruct Hwf1 as [Hlen1 HF1].
         destruct (pop_raws_typed _ _ _ _ _ HF1 HPn0) as [HT _].
-        destruct (batch_views (v :: Pn') (q_proto q1) HT ltac:(congruence) HIn) as [HLen [ptsn HVn]].
-        destruct (pop_points_view (Datatypes.S k) q1 q_r read [] (v :: Pn') qsn ptsn HPn0 HLen HVn) as (pts0 & Hpp & Hm).
-        inversion HVn as [|? p ? rest Hvp HVn']; subst.
+        assert (Hpd : q_proto q1 = proto_dtypes pc) by congruence.
+        destruct (batch_views (v :: Pn') (q_proto q1) HT Hpd HIn) as [HLen [ptsn HVn]].
+        destruct (Forall2_cons_inv _ _ _ _ HVn) as (p & rest & -> & Hvp & HVn').
+        destruct (pop_points_view (Datatypes.S k) q1 q_r read [] (v :: Pn') qn' (p :: rest) HPn0 HLen HVn) as (pts0 & Hpp & Hm).
         destruct (pop_fronts_typed _ _ _ _ HF1 Epop) as [_ HF2].
-        destruct (IH (mkQr (q_proto q1) (q_streams q1) qs1) (mkQr (q_proto q1) (q_streams q1) qsn) Pn' rest (read + 1)
+        destruct (IH (mkQr (q_proto q1) (q_streams q1) qs1) (mkQr (q_proto q1) (q_streams q1) qn') Pn' rest (read + 1)
                      s1' s2 l it2) as (out & Hout & HVout).
         { repeat split; try reflexivity; try assumption; cbn [q_proto q_streams q_queues]; congruence. }
         { exact E2. }
         { inversion HI; subst. assumption. }
         exists (p :: out). split; [|constructor; assumption].
-        cbn [simple_collect]. rewrite grun_bind. unfold simple_next at 1. cbn [mk si_pc si_read si_points si_q]. rewrite E.
-        rewrite (grun_bind_step step _ _ _ _ _ Hrefill). fold a. rewrite Ek.
-        rewrite grun_bind, grun_rlift. fold (mk q_r read []). rewrite Hpp.
-        cbn [si_opts si_rotation si_translation mk]. rewrite post_buffer_map. rewrite Hm. cbn [grun].
-        rewrite simple_collect_acc. unfold with_queue. cbn [si_pc si_opts si_rotation si_translation si_indices si_ranges].
-        fold (mk (mkQr (q_proto q1) (q_streams q1) qsn) (read + 1) rest). rewrite Hout. reflexivity.
+        assert (Hlt : read < pc_records pc) by lia.
+        rewrite <- Ek in Hpp. unfold a in Hpp.
+        rewrite (simple_collect_item f _ _ _ _ _ (simple_next_refill q_r read s s1' q1 pts0 _ p rest Hlt Hrefill Hpp Hm)).
+        rewrite Hout. reflexivity.
       + (* a converted point is waiting: no file access on either side *)
         inversion HV as [|? p ? pts' Hvp HV']; subst. cbn [length pop_raws] in HP.
         destruct (pop_fronts (q_queues q_r)) as [[vs qs1]| |] eqn:Epop; try discriminate.
         destruct (pop_raws (length P') qs1) as [[P1 q1]| |] eqn:E1; try discriminate.
         injection HP as -> -> HQ. cbn [length] in Hle.
-        pose proof (avail_pop_fronts _ _ _ ltac:(rewrite <- qr_available_avail; lia) Epop) as Hav.
-        rewrite <- qr_available_avail in Hav.
-        rewrite (raw_collect_item f _ s s _ v (raw_next_pending q_r _ read v qs1 s ltac:(lia) ltac:(lia) Epop)) in H.
+        assert (Hav1 : 1 <= avail (q_queues q_r)) by (rewrite <- qr_available_avail; lia).
+        pose proof (avail_pop_fronts _ _ _ Hav1 Epop) as Hav.
+        rewrite <- qr_available_avail in Hav, Hav1.
+        assert (Hlt : read < pc_records pc) by lia.
+        rewrite (raw_collect_item f _ s s _ v (raw_next_pending q_r _ read v qs1 s Hlt Hav1 Epop)) in H.
         destruct (grun step (raw_collect_st f log_size _ []) s) as [s2 [[l it2]| |]] eqn:E2; cbn [res_map fst snd] in H;
           try discriminate.
         injection H as <- <- <-. cbn [app] in HI. destruct Hwf as [Hlen0 HF0].
@@ -261,9 +310,104 @@ Section Sim.
         { exact E2. }
         { inversion HI; subst. assumption. }
         exists (p :: out). split; [|constructor; assumption].
-        cbn [simple_collect]. rewrite grun_bind. unfold simple_next at 1. cbn [mk si_pc si_read si_points si_q]. rewrite E.
-        cbn [grun]. rewrite simple_collect_acc. unfold with_queue.
-        cbn [si_pc si_opts si_rotation si_translation si_indices si_ranges].
-        fold (mk q_s (read + 1) pts'). rewrite Hout. reflexivity.
+        rewrite (simple_collect_item f _ _ _ _ _ (simple_next_waiting q_s read p pts' s Hlt)).
+        rewrite Hout. reflexivity.
   Qed.
 End Sim.
+
+(** * The theorems of C05 about the iteration *)
+Section Top.
+  Variables (fcos fsin fasin : binary64 -> binary64) (fatan2 : binary64 -> binary64 -> binary64).
+  Context {S : Type} (step : pr_op -> S -> S * res pr_out).
+
+  (** [raw_collect_st] is [raw_collect] that also returns the final iterator *)
+  Lemma raw_collect_fst : forall f log_size rit acc s,
+    grun step (raw_collect f log_size rit acc) s =
+    let '(s', r) := grun step (raw_collect_st f log_size rit acc) s in (s', res_map fst r).
+  Proof.
+    induction f as [|f IH]; intros log_size rit acc s; cbn [raw_collect raw_collect_st]; [reflexivity|].
+    rewrite !grun_bind. destruct (grun step (raw_next log_size rit) s) as [s1 [[rit' o']| |]]; try reflexivity.
+    destruct o' as [|p]; [reflexivity|]. apply IH.
+  Qed.
+
+  Lemma raw_read_all_fst fuel log_size pc s :
+    grun step (raw_read_all fuel log_size pc) s =
+    let '(s', r) := grun step (raw_read_all_st fuel log_size pc) s in (s', res_map fst r).
+  Proof.
+    unfold raw_read_all, raw_read_all_st. rewrite !grun_bind.
+    destruct (grun step (raw_new _ _ _) s) as [s1 [rit| |]]; try reflexivity. apply raw_collect_fst.
+  Qed.
+
+  Lemma simple_open_run pc o rgs s s1 q0 :
+    grun step (qr_new (pc_file_offset pc) (proto_dtypes pc)) s = (s1, Ok q0) ->
+    prepare_ranges pc = Ok rgs ->
+    grun step (simple_open pc o) s = (s1, Ok (mk pc o rgs q0 0 [])).
+  Proof.
+    intros Hq Hrg. unfold simple_open, simple_new, mk.
+    destruct (prepare_transform (pc_transform pc)) as [rot tr]. cbn [fst snd].
+    rewrite grun_bind, grun_bind, Hq, grun_bind, grun_rlift, Hrg. cbn [grun]. destruct o. reflexivity.
+  Qed.
+
+  (** A failing constructor: the queue reader, or the ranges *)
+  Lemma simple_open_qr_fails pc o s s1 r :
+    grun step (qr_new (pc_file_offset pc) (proto_dtypes pc)) s = (s1, r) -> (forall q, r <> Ok q) ->
+    exists r', grun step (simple_open pc o) s = (s1, r') /\ forall it, r' <> Ok it.
+  Proof.
+    intros Hq Hr. unfold simple_open, simple_new.
+    destruct (prepare_transform (pc_transform pc)) as [rot tr].
+    rewrite grun_bind, grun_bind, Hq. destruct r as [q| |]; [exfalso; eapply Hr; reflexivity| |];
+      eexists; (split; [reflexivity|discriminate]).
+  Qed.
+
+  Theorem simple_is_view : forall pc o log_size fuel s s' raws itf rgs,
+    grun step (raw_read_all_st fuel log_size pc) s = (s', Ok (raws, itf)) ->
+    prepare_ranges pc = Ok rgs ->
+    index_records_are_integers pc = true ->
+    Forall (fun raw => invalid_states_in_set pc raw = true) (raws ++ leftover itf) ->
+    exists pts, grun step (simple_read_all fcos fsin fasin fatan2 fuel log_size pc o) s = (s', Ok pts) /\
+                res_all (view fcos fsin fasin fatan2 pc o) raws = Ok pts.
+  Proof.
+    intros pc o log_size fuel s s' raws itf rgs Hraw Hrg Hint HI.
+    unfold raw_read_all_st in Hraw. apply grun_bind_ok in Hraw. destruct Hraw as (s1 & rit & Hnew & Hraw).
+    unfold raw_new in Hnew. apply grun_bind_ok in Hnew. destruct Hnew as (s1' & q0 & Hq & Hnew).
+    cbn [rret grun] in Hnew. injection Hnew as <- <-.
+    destruct (qr_new_wf step _ _ _ _ _ Hq) as (Hwf & Hproto & Hqueues).
+    destruct (sim fcos fsin fasin fatan2 step pc o rgs log_size Hrg Hint fuel q0 q0 [] [] 0 s1' s' raws itf) as (out & Hout & HV).
+    - unfold related. split; [reflexivity|]. split; [reflexivity|]. split; [reflexivity|].
+      split; [cbn [length]; lia|]. split; [constructor|]. split; assumption.
+    - exact Hraw.
+    - exact HI.
+    - exists out. split; [|apply res_all_Forall2; exact HV].
+      unfold simple_read_all. rewrite (grun_bind_step step _ _ _ _ _ (simple_open_run pc o rgs s s1' q0 Hq Hrg)).
+      exact Hout.
+  Qed.
+
+  (** The simple iteration fails only for one of four reasons. *)
+  Theorem simple_fails_only_if : forall pc o log_size fuel s s' e,
+    grun step (simple_read_all fcos fsin fasin fatan2 fuel log_size pc o) s = (s', Err e) ->
+    (forall raws, snd (grun step (raw_read_all fuel log_size pc) s) <> Ok raws)
+    \/ (forall rgs, prepare_ranges pc <> Ok rgs)
+    \/ index_records_are_integers pc = false
+    \/ exists s'' raws itf, grun step (raw_read_all_st fuel log_size pc) s = (s'', Ok (raws, itf)) /\
+         Exists (fun raw => invalid_states_in_set pc raw = false) (raws ++ leftover itf).
+  Proof.
+    intros pc o log_size fuel s s' e Hs.
+    destruct (grun step (raw_read_all_st fuel log_size pc) s) as [s'' [[raws itf]|k|]] eqn:Hraw.
+    2:{ left. intros raws. rewrite raw_read_all_fst, Hraw. discriminate. }
+    2:{ left. intros raws. rewrite raw_read_all_fst, Hraw. discriminate. }
+    right. destruct (prepare_ranges pc) as [rgs|k|] eqn:Hrg.
+    2:{ left. discriminate. }
+    2:{ left. discriminate. }
+    right. destruct (index_records_are_integers pc) eqn:Hint; [|left; reflexivity].
+    right. exists s'', raws, itf. split; [reflexivity|].
+    destruct (forallb (invalid_states_in_set pc) (raws ++ leftover itf)) eqn:Hall.
+    - exfalso. rewrite forallb_forall in Hall.
+      destruct (simple_is_view pc o log_size fuel s s'' raws itf rgs Hraw Hrg Hint) as (pts & Hpts & _).
+      { apply Forall_forall. exact Hall. }
+      rewrite Hpts in Hs. discriminate.
+    - apply Exists_exists. clear -Hall. induction (raws ++ leftover itf) as [|x l IH]; [discriminate|].
+      cbn [forallb] in Hall. destruct (invalid_states_in_set pc x) eqn:Ex.
+      + destruct (IH Hall) as (y & Hy & Hb). exists y. split; [right; exact Hy|exact Hb].
+      + exists x. split; [left; reflexivity|exact Ex].
+  Qed.
+End Top.
